@@ -262,6 +262,12 @@ impl PowerCone<F> {
         // C15: "never leads outside the cone when taken": a nonzero dual step was accepted by the DUAL-cone test on z + a*dz,
         // a nonzero slack step by the PRIMAL-cone test on s + a*ds (the points the search evaluated, element-wise)
         r.0 == f_zero() || exists|w: Seq<F>| old(self).in_dual(w) && w.len() == 3 && forall|i: int| 0 <= i < 3 ==> #[trigger] w[i] == f_add(f_mul(f_one(), z@[i]), f_mul(r.0, dz@[i])),
+        // "not needlessly short": the step is alphamax itself, or one backtracking factor below a trial the cone test rejected
+        // (or the search gave up because the next trial would fall below min_terminate_step_length)
+        r.0 == alphamax || exists|prev: F, w: Seq<F>| #[trigger] trial_at(w, z@, dz@, prev) && !old(self).in_dual(w)
+            && (r.0 == f_mul(prev, settings.linesearch_backtrack_step) || (r.0 == f_zero() && f_lt(f_mul(prev, settings.linesearch_backtrack_step), settings.min_terminate_step_length))),
+        r.1 == alphamax || exists|prev: F, w: Seq<F>| #[trigger] trial_at(w, s@, ds@, prev) && !old(self).in_primal(w)
+            && (r.1 == f_mul(prev, settings.linesearch_backtrack_step) || (r.1 == f_zero() && f_lt(f_mul(prev, settings.linesearch_backtrack_step), settings.min_terminate_step_length))),
         r.1 == f_zero() || exists|w: Seq<F>| old(self).in_primal(w) && w.len() == 3 && forall|i: int| 0 <= i < 3 ==> #[trigger] w[i] == f_add(f_mul(f_one(), s@[i]), f_mul(r.1, ds@[i])),
 //@closure 1
 =
@@ -276,6 +282,16 @@ impl PowerCone<F> {
         proof {
             if alphaz != f_zero() { assert(self.in_dual(wz) && wz.len() == 3); }
             if alphas != f_zero() { assert(self.in_primal(ws) && ws.len() == 3); }
+            if alphaz != alphamax {
+                let prev = choose|prev: F| #[trigger] trial_rejected(_is_dual_feasible_fcn, z@, dz@, prev) && (alphaz == f_mul(prev, step) || (alphaz == f_zero() && f_lt(f_mul(prev, step), alphamin)));
+                let w = choose|w: &[F]| trial_at(w@, z@, dz@, prev) && _is_dual_feasible_fcn.ensures((w,), false);
+                assert(trial_at(w@, z@, dz@, prev) && !self.in_dual(w@));
+            }
+            if alphas != alphamax {
+                let prev = choose|prev: F| #[trigger] trial_rejected(_is_prim_feasible_fcn, s@, ds@, prev) && (alphas == f_mul(prev, step) || (alphas == f_zero() && f_lt(f_mul(prev, step), alphamin)));
+                let w = choose|w: &[F]| trial_at(w@, s@, ds@, prev) && _is_prim_feasible_fcn.ensures((w,), false);
+                assert(trial_at(w@, s@, ds@, prev) && !self.in_primal(w@));
+            }
         }
 //@end
 }
@@ -292,6 +308,12 @@ impl ExponentialCone<F> {
         // C15: "never leads outside the cone when taken": a nonzero dual step was accepted by the DUAL-cone test on z + a*dz,
         // a nonzero slack step by the PRIMAL-cone test on s + a*ds (the points the search evaluated, element-wise)
         r.0 == f_zero() || exists|w: Seq<F>| old(self).in_dual(w) && w.len() == 3 && forall|i: int| 0 <= i < 3 ==> #[trigger] w[i] == f_add(f_mul(f_one(), z@[i]), f_mul(r.0, dz@[i])),
+        // "not needlessly short": the step is alphamax itself, or one backtracking factor below a trial the cone test rejected
+        // (or the search gave up because the next trial would fall below min_terminate_step_length)
+        r.0 == alphamax || exists|prev: F, w: Seq<F>| #[trigger] trial_at(w, z@, dz@, prev) && !old(self).in_dual(w)
+            && (r.0 == f_mul(prev, settings.linesearch_backtrack_step) || (r.0 == f_zero() && f_lt(f_mul(prev, settings.linesearch_backtrack_step), settings.min_terminate_step_length))),
+        r.1 == alphamax || exists|prev: F, w: Seq<F>| #[trigger] trial_at(w, s@, ds@, prev) && !old(self).in_primal(w)
+            && (r.1 == f_mul(prev, settings.linesearch_backtrack_step) || (r.1 == f_zero() && f_lt(f_mul(prev, settings.linesearch_backtrack_step), settings.min_terminate_step_length))),
         r.1 == f_zero() || exists|w: Seq<F>| old(self).in_primal(w) && w.len() == 3 && forall|i: int| 0 <= i < 3 ==> #[trigger] w[i] == f_add(f_mul(f_one(), s@[i]), f_mul(r.1, ds@[i])),
 //@closure 1
 =
@@ -306,6 +328,16 @@ impl ExponentialCone<F> {
         proof {
             if alphaz != f_zero() { assert(self.in_dual(wz) && wz.len() == 3); }
             if alphas != f_zero() { assert(self.in_primal(ws) && ws.len() == 3); }
+            if alphaz != alphamax {
+                let prev = choose|prev: F| #[trigger] trial_rejected(_is_dual_feasible_fcn, z@, dz@, prev) && (alphaz == f_mul(prev, step) || (alphaz == f_zero() && f_lt(f_mul(prev, step), alphamin)));
+                let w = choose|w: &[F]| trial_at(w@, z@, dz@, prev) && _is_dual_feasible_fcn.ensures((w,), false);
+                assert(trial_at(w@, z@, dz@, prev) && !self.in_dual(w@));
+            }
+            if alphas != alphamax {
+                let prev = choose|prev: F| #[trigger] trial_rejected(_is_prim_feasible_fcn, s@, ds@, prev) && (alphas == f_mul(prev, step) || (alphas == f_zero() && f_lt(f_mul(prev, step), alphamin)));
+                let w = choose|w: &[F]| trial_at(w@, s@, ds@, prev) && _is_prim_feasible_fcn.ensures((w,), false);
+                assert(trial_at(w@, s@, ds@, prev) && !self.in_primal(w@));
+            }
         }
 //@end
 }
